@@ -62,6 +62,16 @@ func main() {
 				fmt.Fprintln(w, l)
 			}
 		}
+	case "displace":
+		rng := rand.New(rand.NewSource(*seed))
+		for i := 0; i < *n; i++ {
+			cs := rng.Int63()
+			if i < *start {
+				continue
+			}
+			sub := rand.New(rand.NewSource(cs))
+			emit(w, runDisplacePairs(genDisplaceCase(sub, i, cs), sub))
+		}
 	case "curry", "saveto", "filler":
 		rng := rand.New(rand.NewSource(*seed))
 		var lines []string
@@ -187,4 +197,5 @@ var profiles = map[string]Profile{
 	"default": defaultProfile,
 	"plain":   plainProfile,
 	"memo":    memoProfile,
+	"reorder": reorderProfile,
 }
